@@ -52,3 +52,17 @@ Theorem C07_never_out_of_step : forall h,
   Forall (Forall (fun o => o <> Decoded false)) (history true st0 h).
 Proof. intros h. exact (never_out_of_step h st0 in_sync_st0). Qed.
 Print Assumptions C07_never_out_of_step.
+
+(* "payload types relabelled ... never returns success while discarding a main record that was present in the batch": whatever
+   labels the records of a batch travel under, with the strict related-table decoders (parent_id mandatory) success-with-nothing
+   is never returned while a record that physically is the signal's main record is among those read; the lenient decoders
+   (before the fix) are refuted on bare spans relabelled to span events. *)
+Theorem C07_relabelled_main_never_discarded : forall signal recs,
+  (exists r, In r recs /\ r_true r = main_type signal) -> dispatch3 true signal recs <> FNothing.
+Proof. exact main_never_discarded. Qed.
+Print Assumptions C07_relabelled_main_never_discarded.
+
+Example C07_lenient_discards_relabelled_main :
+  dispatch3 false 0 [{| r_label := 42; r_true := 40; r_wf := true; r_lenient := true |}] = FNothing /\
+  dispatch3 true 0 [{| r_label := 42; r_true := 40; r_wf := true; r_lenient := true |}] = FErr.
+Proof. exact lenient_discards_relabelled_main. Qed.
